@@ -256,6 +256,13 @@ func (e *Exec) deliver(tx model.Tx) (TxObs, []Disc, bool) {
 		obs.Pred = "ante"
 	}
 	switch {
+	case obs.AnteOK && tx.Signed != nil && txJSON(model.Tx{Msgs: tx.Signed}) != txJSON(model.Tx{Msgs: tx.Msgs}):
+		// the pre-execution stage (signature verification) let a transaction through whose content is not what was signed
+		k := model.Flatten(tx.Msgs)[0].Kind
+		discs = append(discs, Disc{Kind: "tx.accept_unexpected:" + k + ":altered_after_signing",
+			Detail: fmt.Sprintf("a transaction whose message was altered after it had been signed (amino-JSON sign mode) passed signature verification: signed %s, delivered %s", txJSON(model.Tx{Msgs: tx.Signed}), txJSON(model.Tx{Msgs: tx.Msgs})),
+			Sig:    map[string]string{"kind": k, "reason": "altered_after_signing"}})
+		diverged = true
 	case r.OK() && wrongSigner:
 		k := model.Flatten(tx.Msgs)[0].Kind
 		discs = append(discs, Disc{Kind: "tx.accept_unexpected:" + k + ":wrong_signer",
@@ -285,7 +292,8 @@ func (e *Exec) deliver(tx model.Tx) (TxObs, []Disc, bool) {
 	// signed by exactly the keys of the parties its messages name, with the right sequences - and refused
 	// because "the signature does not match the signer": what the chain takes for the signer of the
 	// message is not the party the operation belongs to
-	if !r.OK() && !obs.AnteOK && !wrongSigner && !tx.BadSig && tx.SeqDelta == 0 && r.Codespace == "sdk" && (r.Code == 4 || r.Code == 8) &&
+	altered := tx.Signed != nil && txJSON(model.Tx{Msgs: tx.Signed}) != txJSON(model.Tx{Msgs: tx.Msgs})
+	if !r.OK() && !obs.AnteOK && !wrongSigner && !tx.BadSig && !altered && tx.SeqDelta == 0 && r.Codespace == "sdk" && (r.Code == 4 || r.Code == 8) &&
 		(strings.Contains(r.Log, "signature verification failed") || strings.Contains(r.Log, "pubKey does not match signer address")) {
 		k := model.Flatten(tx.Msgs)[0].Kind
 		discs = append(discs, Disc{Kind: "tx.entitled_signer_refused:" + k,
